@@ -1,8 +1,8 @@
 import CoclsModel.Chain
 /-!
 Invariant of the micro-step chain model (`Chain.lean`: promise / future / awaiter chain) and its preservation by every
-agent step, for every configuration (any number of resolver calls, destructor agents and waiters of every kind) and
-every schedule.  Helper lemmas for `Props/C01.lean` and `Props/C02.lean`.
+agent step, for every configuration (any number of resolver calls, destructor agents — plain `~promise` and
+`~promise_with_default` — and waiters of every kind) and every schedule.  Helper lemmas for `Props/C01.lean` and `Props/C02.lean`.
 
 Structure: counting functions over the walker's remaining actions (`cntW`, `cntO`), the invariant `Inv` (small
 independent clauses), one preservation lemma per pc case of `astep` (closed by `inv_tac` = `grind` over the clause
@@ -123,16 +123,19 @@ theorem cntO_buildActs (c : Cfg) (x : Nat) (l : List Nat) :
 
 /-! ## the invariant -/
 
-/-- class of an agent: 0 = resolver call, 1 = destructor, 2 = waiter -/
+/-- class of an agent: 0 = resolver call, 1 = destructor (`~promise`), 2 = waiter,
+3 = destructor of a `promise_with_default` -/
 def Kind.cls : Kind → Nat
   | Kind.res _ => 0
   | Kind.dtor => 1
   | Kind.wait _ => 2
+  | Kind.ddef _ => 3
 
 /-- the payload an agent delivers if it wins -/
 def winPayload (c : Cfg) (t : Nat) : Outcome :=
   match c.kind t with
   | Kind.res k => k.payload
+  | Kind.ddef v => Outcome.val v
   | _ => Outcome.none
 
 /-- `x` is a waiter agent of the configuration -/
@@ -142,11 +145,12 @@ def isW (c : Cfg) (x : Nat) : Bool := decide (x < c.n) && decide ((c.kind x).cls
 def pcOK (c : Cfg) (t : Nat) : Pc → Prop
   | Pc.rClaim => (c.kind t).cls = 0
   | Pc.rFinLost => (c.kind t).cls = 0
-  | Pc.rResolve dt => (c.kind t).cls = if dt = true then 1 else 0
-  | Pc.rRun dt _ => (c.kind t).cls = if dt = true then 1 else 0
-  | Pc.dArrive => (c.kind t).cls = 1
-  | Pc.dBlocked => (c.kind t).cls = 1
-  | Pc.dFin => (c.kind t).cls = 1
+  | Pc.rResolve dt => if dt = true then (c.kind t).cls = 1 else ((c.kind t).cls = 0 ∨ (c.kind t).cls = 3)
+  | Pc.rRun dt _ => if dt = true then (c.kind t).cls = 1 else ((c.kind t).cls = 0 ∨ (c.kind t).cls = 3)
+  | Pc.dArrive => (c.kind t).cls = 1 ∨ (c.kind t).cls = 3
+  | Pc.dBlocked => (c.kind t).cls = 1 ∨ (c.kind t).cls = 3
+  | Pc.dFin => (c.kind t).cls = 1 ∨ (c.kind t).cls = 3
+  | Pc.dLoad => (c.kind t).cls = 3
   | Pc.wLoad => (c.kind t).cls = 2
   | Pc.wCas _ => (c.kind t).cls = 2
   | Pc.wRead => (c.kind t).cls = 2
@@ -161,6 +165,7 @@ def passed : Pc → Bool
   | Pc.rResolve _ => true
   | Pc.rRun _ _ => true
   | Pc.dFin => true
+  | Pc.dLoad => true
   | _ => false
 
 /-- the waiter itself still has to read the result -/
@@ -221,9 +226,9 @@ structure Inv (c : Cfg) (s : State) : Prop where
   kindpc : ∀ t, pcOK c t (s.pc t)
   /-- whoever is past its claim / owner load (or is a finished resolving agent) has seen to it that the owner is taken -/
   claimed : ∀ t, passed (s.pc t) = true ∨ (t < c.n ∧ (c.kind t).cls ≠ 2 ∧ s.pc t = Pc.done) → s.owner = false
-  /-- the winner is a resolving agent, resolving, walking or finished -/
+  /-- the winner is a resolving agent, resolving, walking or finished (`dFin`: a `promise_with_default` after its walk) -/
   winpc : ∀ w, s.winner = some w → w < c.n ∧ (c.kind w).cls ≠ 2
-      ∧ (isResolve (s.pc w) = true ∨ isRun (s.pc w) = true ∨ s.pc w = Pc.done)
+      ∧ (isResolve (s.pc w) = true ∨ isRun (s.pc w) = true ∨ s.pc w = Pc.done ∨ s.pc w = Pc.dFin)
   /-- only the winner is ever at `rResolve` / `rRun`: at most one active resolver, at most one walker -/
   active : ∀ t, isResolve (s.pc t) = true ∨ isRun (s.pc t) = true → s.winner = some t
   /-- before the exchange: nothing stored, nobody released, a winner (if any) is still at `rResolve` -/
@@ -306,7 +311,7 @@ theorem inv_rClaim_lose (h : Inv c s) (hpc : s.pc t = Pc.rClaim) (ho : s.owner =
 theorem inv_rFinLost (h : Inv c s) (hpc : s.pc t = Pc.rFinLost) : Inv c (setPc s t Pc.done) := by
   inv_tac h
 
-theorem inv_dArrive_win (h : Inv c s) (hpc : s.pc t = Pc.dArrive) (ho : s.owner = true) :
+theorem inv_dArrive_win (h : Inv c s) (hpc : s.pc t = Pc.dArrive) (ho : s.owner = true) (hk : (c.kind t).cls = 1) :
     Inv c { setPc s t (Pc.rResolve true) with owner := false, wins := s.wins + 1, winner := some t } := by
   inv_tac h
 
@@ -314,16 +319,39 @@ theorem inv_dArrive_lose (h : Inv c s) (hpc : s.pc t = Pc.dArrive) (ho : s.owner
     Inv c (setPc s t Pc.dFin) := by
   inv_tac h
 
+theorem inv_dArrive_dwin (h : Inv c s) (hpc : s.pc t = Pc.dArrive) (ho : s.owner = true) (hk : (c.kind t).cls = 3) :
+    Inv c { setPc s t (Pc.rResolve false) with owner := false, wins := s.wins + 1, winner := some t } := by
+  inv_tac h
+
+theorem inv_dArrive_dlose (h : Inv c s) (hpc : s.pc t = Pc.dArrive) (ho : s.owner = false) (hk : (c.kind t).cls = 3) :
+    Inv c (setPc s t Pc.dLoad) := by
+  inv_tac h
+
 theorem inv_dArrive_block (h : Inv c s) (hpc : s.pc t = Pc.dArrive) : Inv c (setPc s t Pc.dBlocked) := by
   inv_tac h
 
-theorem inv_dBlocked_win (h : Inv c s) (hpc : s.pc t = Pc.dBlocked) (ho : s.owner = true) :
+theorem inv_dBlocked_win (h : Inv c s) (hpc : s.pc t = Pc.dBlocked) (ho : s.owner = true) (hk : (c.kind t).cls = 1) :
     Inv c { setPc s t (Pc.rResolve true) with owner := false, wins := s.wins + 1, winner := some t } := by
   inv_tac h
 
 theorem inv_dBlocked_lose (h : Inv c s) (hpc : s.pc t = Pc.dBlocked) (ho : s.owner = false) :
     Inv c (setPc s t Pc.dFin) := by
   inv_tac h
+
+theorem inv_dBlocked_dwin (h : Inv c s) (hpc : s.pc t = Pc.dBlocked) (ho : s.owner = true) (hk : (c.kind t).cls = 3) :
+    Inv c { setPc s t (Pc.rResolve false) with owner := false, wins := s.wins + 1, winner := some t } := by
+  inv_tac h
+
+theorem inv_dBlocked_dlose (h : Inv c s) (hpc : s.pc t = Pc.dBlocked) (ho : s.owner = false) (hk : (c.kind t).cls = 3) :
+    Inv c (setPc s t Pc.dLoad) := by
+  inv_tac h
+
+/-- the base destructor after a lost claim: the owner pointer is null, nothing to resolve -/
+theorem inv_dLoad (h : Inv c s) (hpc : s.pc t = Pc.dLoad) : Inv c (setPc s t Pc.dFin) := by
+  inv_tac h
+
+theorem owner_of_dLoad (h : Inv c s) (hpc : s.pc t = Pc.dLoad) : s.owner = false :=
+  h.claimed t (Or.inl (by simp [hpc, passed]))
 
 theorem inv_dFin (h : Inv c s) (hpc : s.pc t = Pc.dFin) : Inv c (setPc s t Pc.done) := by
   inv_tac h
@@ -429,6 +457,18 @@ theorem inv_run_fin (h : Inv c s) (dt : Bool) (hpc : s.pc t = Pc.rRun dt []) :
     Inv c (setPc s t Pc.done) := by
   inv_tac h
 
+/-- `~promise_with_default` after its walk: the base destructor finds the owner pointer null -/
+theorem inv_run_fin_ddef (h : Inv c s) (hpc : s.pc t = Pc.rRun false []) (hk : (c.kind t).cls = 3) :
+    Inv c (setPc s t Pc.dFin) := by
+  inv_tac h
+
+theorem owner_of_active (h : Inv c s) (hpc : isResolve (s.pc t) = true ∨ isRun (s.pc t) = true) : s.owner = false := by
+  cases ho : s.owner
+  · rfl
+  · have h1 := (h.own_t ho).2
+    have h2 := h.active t hpc
+    rw [h1] at h2; cases h2
+
 end
 
 section
@@ -479,6 +519,30 @@ theorem setPc_setPc (s : State) (p q : Pc) : setPc (setPc s t p) t q = setPc s t
 theorem setPc_self (s : State) (p : Pc) (h : s.pc t = p) : setPc s t p = s := by
   simp [setPc, upd_self _ _ _ h]
 
+theorem finishRun_setPc (s : State) (p : Pc) (dt : Bool) (evs : List Ev) :
+    (finishRun c (setPc s t p) t dt evs).1 = (finishRun c s t dt evs).1 := by
+  unfold finishRun dtorLoad
+  split
+  · simp [setPc, upd_upd]
+  · split
+    · cases ho : s.owner <;> simp [setPc, upd_upd, ho]
+    · simp [setPc, upd_upd]
+
+theorem inv_finishRun (s : State) (dt : Bool) (evs : List Ev) (h : Inv c s) (hpc : s.pc t = Pc.rRun dt []) :
+    Inv c (finishRun c s t dt evs).1 := by
+  unfold finishRun
+  split
+  · exact inv_run_fin c s t h dt hpc
+  · rename_i hdt
+    have hdt' : dt = false := by simpa using hdt
+    subst hdt'
+    split
+    · rename_i v hk
+      have ho := owner_of_active c s t h (Or.inr (by simp [hpc, isRun]))
+      simp only [dtorLoad, ho]
+      exact inv_run_fin_ddef c s t h hpc (by simp [hk, Kind.cls])
+    · exact inv_run_fin c s t h false hpc
+
 theorem inv_stepRun (s : State) (dt : Bool) (acts : List Act) (h : Inv c s) (hpc : s.pc t = Pc.rRun dt acts) :
     Inv c (stepRun c s t dt acts).1 := by
   have key := runActs_ind c t (fun s acts => Inv c (setPc s t (Pc.rRun dt acts))) ?_ ?_ ?_ ?_ acts s
@@ -490,8 +554,8 @@ theorem inv_stepRun (s : State) (dt : Bool) (acts : List Act) (h : Inv c s) (hpc
     · rename_i hstop
       have hnil := runActs_rest_nil c t acts s (by simpa using hstop)
       rw [hnil] at key
-      have := inv_run_fin c _ t key dt (by simp)
-      rwa [setPc_setPc] at this
+      have := inv_finishRun c t _ dt (runActs c t s acts).2.1 key (by simp)
+      rwa [finishRun_setPc] at this
   · intro s x rest hP
     have := inv_run_store c _ t hP dt x rest (by simp)
     simpa [setPc, upd_upd] using this
@@ -522,6 +586,7 @@ theorem resolve_payload (s : State) (h : Inv c s) (dt : Bool) (hpc : s.pc t = Pc
     (if dt = true then s.payload else
         match c.kind t with
         | Kind.res k => k.payload
+        | Kind.ddef v => Outcome.val v
         | _ => s.payload) = winPayload c t := by
   obtain ⟨l, hl⟩ := chain_of_resolve c t s h dt hpc
   have hp := (h.chain_phase l hl).1
@@ -530,6 +595,44 @@ theorem resolve_payload (s : State) (h : Inv c s) (dt : Bool) (hpc : s.pc t = Pc
   simp only [pcOK] at hk
   unfold winPayload
   cases hkind : c.kind t <;> cases dt <;> simp_all [Kind.cls]
+
+theorem cls_eq_three (k : Kind) (h : k.cls = 3) : ∃ v, k = Kind.ddef v := by
+  cases k <;> simp_all [Kind.cls]
+
+theorem inv_dtorEnter (s : State) (h : Inv c s) (hpc : s.pc t = Pc.dArrive ∨ s.pc t = Pc.dBlocked) :
+    Inv c (dtorEnter c s t).1 := by
+  have hk := h.kindpc t
+  unfold dtorEnter
+  split
+  · rename_i v hkind
+    have hk3 : (c.kind t).cls = 3 := by simp [hkind, Kind.cls]
+    unfold ddefClaim
+    split
+    · rename_i ho
+      rcases hpc with hpc | hpc
+      · exact inv_dArrive_dwin c s t h hpc ho hk3
+      · exact inv_dBlocked_dwin c s t h hpc ho hk3
+    · rename_i ho
+      rcases hpc with hpc | hpc
+      · exact inv_dArrive_dlose c s t h hpc (by simpa using ho) hk3
+      · exact inv_dBlocked_dlose c s t h hpc (by simpa using ho) hk3
+  · rename_i hnd
+    have hk1 : (c.kind t).cls = 1 := by
+      rcases hpc with hpc | hpc <;> (rw [hpc] at hk; simp only [pcOK] at hk) <;> rcases hk with hk | hk
+      · exact hk
+      · obtain ⟨v, hv⟩ := cls_eq_three _ hk; exact absurd hv (hnd v)
+      · exact hk
+      · obtain ⟨v, hv⟩ := cls_eq_three _ hk; exact absurd hv (hnd v)
+    unfold dtorLoad
+    split
+    · rename_i ho
+      rcases hpc with hpc | hpc
+      · exact inv_dArrive_win c s t h hpc ho hk1
+      · exact inv_dBlocked_win c s t h hpc ho hk1
+    · rename_i ho
+      rcases hpc with hpc | hpc
+      · exact inv_dArrive_lose c s t h hpc (by simpa using ho)
+      · exact inv_dBlocked_lose c s t h hpc (by simpa using ho)
 
 theorem inv_astep (s : State) (h : Inv c s) (hen : enabled c s t = true) : Inv c (astep c s t).1 := by
   unfold astep
@@ -550,14 +653,12 @@ theorem inv_astep (s : State) (h : Inv c s) (hen : enabled c s t = true) : Inv c
   · rename_i dt acts hpc; exact inv_stepRun c t s dt acts h hpc
   · rename_i hpc
     split
-    · split
-      · rename_i ho; exact inv_dArrive_win c s t h hpc ho
-      · rename_i ho; exact inv_dArrive_lose c s t h hpc (by simpa using ho)
+    · exact inv_dtorEnter c t s h (Or.inl hpc)
     · exact inv_dArrive_block c s t h hpc
+  · rename_i hpc; exact inv_dtorEnter c t s h (Or.inr hpc)
   · rename_i hpc
-    split
-    · rename_i ho; exact inv_dBlocked_win c s t h hpc ho
-    · rename_i ho; exact inv_dBlocked_lose c s t h hpc (by simpa using ho)
+    simp only [dtorLoad, owner_of_dLoad c s t h hpc]
+    exact inv_dLoad c s t h hpc
   · rename_i hpc; exact inv_dFin c s t h hpc
   · rename_i hpc
     split
@@ -650,15 +751,106 @@ end
 section
 variable (c : Cfg) (t : Nat)
 
+/-- what the owner-pointer operations of the destructor agents (`~promise`'s load, `~promise_with_default`'s claim) do -/
+structure OwnerOp (s : State) (t : Nat) (r : State × List Ev) : Prop where
+  slot : r.1.slot = s.slot
+  payload : r.1.payload = s.payload
+  flag : r.1.flag = s.flag
+  subscribed : r.1.subscribed = s.subscribed
+  woken : r.1.woken = s.woken
+  observed : r.1.observed = s.observed
+  pc_other : ∀ t', t' ≠ t → r.1.pc t' = s.pc t'
+  no_obs : ∀ w o, Ev.obs w o ∉ r.2
+  no_ret : ∀ t' b, Ev.ret t' b ∉ r.2
+  own : (r.1.owner = s.owner ∧ r.1.wins = s.wins ∧ r.1.winner = s.winner ∧ s.owner = false ∧ (r.1.pc t = Pc.dFin ∨ r.1.pc t = Pc.dLoad))
+      ∨ (s.owner = true ∧ r.1.winner = some t ∧ isResolve (r.1.pc t) = true)
+
+theorem ownerOp_dtorLoad (s : State) : OwnerOp s t (dtorLoad s t) := by
+  unfold dtorLoad
+  cases ho : s.owner
+  · refine ⟨rfl, rfl, rfl, rfl, rfl, rfl, ?_, ?_, ?_, ?_⟩
+    · intro t' h; simp [h]
+    · simp
+    · simp
+    · simp [ho]
+  · refine ⟨rfl, rfl, rfl, rfl, rfl, rfl, ?_, ?_, ?_, ?_⟩
+    · intro t' h; simp [h]
+    · simp
+    · simp
+    · simp [isResolve, ho]
+
+theorem ownerOp_ddefClaim (s : State) : OwnerOp s t (ddefClaim s t) := by
+  unfold ddefClaim
+  cases ho : s.owner
+  · refine ⟨rfl, rfl, rfl, rfl, rfl, rfl, ?_, ?_, ?_, ?_⟩
+    · intro t' h; simp [h]
+    · simp
+    · simp
+    · simp [ho]
+  · refine ⟨rfl, rfl, rfl, rfl, rfl, rfl, ?_, ?_, ?_, ?_⟩
+    · intro t' h; simp [h]
+    · simp
+    · simp
+    · simp [isResolve, ho]
+
+theorem ownerOp_dtorEnter (s : State) : OwnerOp s t (dtorEnter c s t) := by
+  unfold dtorEnter
+  split
+  · exact ownerOp_ddefClaim t s
+  · exact ownerOp_dtorLoad t s
+
+/-- the two ways a walker's last step ends -/
+theorem finishRun_spec (s : State) (dt : Bool) (evs : List Ev) :
+    ((finishRun c s t dt evs).1 = setPc s t Pc.done
+        ∧ (finishRun c s t dt evs).2 = evs ++ (if dt = true then [] else [Ev.ret t true]) ++ [Ev.fin t]
+        ∧ (dt = true ∨ (c.kind t).cls ≠ 3))
+    ∨ (dt = false ∧ (c.kind t).cls = 3 ∧ (finishRun c s t dt evs).1 = (dtorLoad s t).1
+        ∧ (finishRun c s t dt evs).2 = evs ++ (dtorLoad s t).2) := by
+  unfold finishRun
+  cases dt
+  · simp only [Bool.false_eq_true, if_false]
+    split
+    · rename_i v hk
+      right; simp [hk, Kind.cls]
+    · rename_i hk
+      left
+      refine ⟨rfl, by simp, Or.inr ?_⟩
+      intro h3
+      obtain ⟨v, hv⟩ := cls_eq_three _ h3
+      exact hk v hv
+  · left; simp
+
+/-- the walker's step leaves slot, payload and the subscriptions alone -/
 theorem stepRun_frame (s : State) (dt : Bool) (acts : List Act) :
-    let r := (stepRun c s t dt acts).1
-    r.owner = s.owner ∧ r.slot = s.slot ∧ r.payload = s.payload ∧ r.wins = s.wins
-      ∧ r.winner = s.winner ∧ r.subscribed = s.subscribed := by
+    (stepRun c s t dt acts).1.slot = s.slot ∧ (stepRun c s t dt acts).1.payload = s.payload
+      ∧ (stepRun c s t dt acts).1.subscribed = s.subscribed := by
   have h := runActs_frame c t acts s
   simp only at h
   unfold stepRun
   simp only
-  split <;> simp [h]
+  split
+  · simp [h]
+  · rcases finishRun_spec c t (runActs c t s acts).1 dt (runActs c t s acts).2.1 with ⟨h1, _, _⟩ | ⟨_, _, h1, _⟩
+    · rw [h1]; simp [h]
+    · have ho := ownerOp_dtorLoad t (runActs c t s acts).1
+      rw [h1, ho.slot, ho.payload, ho.subscribed]; simp [h]
+
+/-- with the owner pointer already taken, the walker's step leaves owner, wins and winner alone -/
+theorem stepRun_frame_owner (s : State) (dt : Bool) (acts : List Act) (ho : s.owner = false) :
+    (stepRun c s t dt acts).1.owner = false ∧ (stepRun c s t dt acts).1.wins = s.wins
+      ∧ (stepRun c s t dt acts).1.winner = s.winner := by
+  have h := runActs_frame c t acts s
+  simp only at h
+  unfold stepRun
+  simp only
+  split
+  · simp [h, ho]
+  · rcases finishRun_spec c t (runActs c t s acts).1 dt (runActs c t s acts).2.1 with ⟨h1, _, _⟩ | ⟨_, _, h1, _⟩
+    · rw [h1]; simp [h, ho]
+    · have hO := ownerOp_dtorLoad t (runActs c t s acts).1
+      rcases hO.own with ⟨a1, a2, a3, _⟩ | ⟨a1, _⟩
+      · rw [h1, a1, a2, a3]; simp [h, ho]
+      · rw [h.1, ho] at a1; cases a1
 
 /-- once the slot is `ready`, no step of any agent changes the slot or the payload -/
 theorem astep_stable (s : State) (h : Inv c s) (hs : s.slot = Slot.ready) :
@@ -672,12 +864,12 @@ theorem astep_stable (s : State) (h : Inv c s) (hs : s.slot = Slot.ready) :
     obtain ⟨l, hl⟩ := chain_of_resolve c t s h dt hpc
     rw [hs] at hl; cases hl
   · have := stepRun_frame c t s ‹_› ‹_›
-    simp only at this
     simp [this, hs]
   · split
-    · split <;> simp [hs]
+    · have := ownerOp_dtorEnter c t s; simp [this.slot, this.payload, hs]
     · simp [hs]
-  · split <;> simp [hs]
+  · have := ownerOp_dtorEnter c t s; simp [this.slot, this.payload, hs]
+  · have := ownerOp_dtorLoad t s; simp [this.slot, this.payload, hs]
   · simp [hs]
   · split <;> simp [hs]
   · simp [hs]
@@ -694,19 +886,24 @@ theorem astep_winner (s : State) (h : Inv c s) (w : Nat) (hw : s.winner = some w
     cases hown : s.owner
     · rfl
     · have := (h.own_t hown).2; rw [this] at hw; cases hw
+  have hop : ∀ r, OwnerOp s t r → r.1.winner = some w ∧ r.1.wins = s.wins := by
+    intro r hr
+    rcases hr.own with ⟨_, a2, a3, _⟩ | ⟨a1, _⟩
+    · exact ⟨a3.trans hw, a2⟩
+    · rw [ho] at a1; cases a1
   unfold astep
   split
   · exact ⟨hw, rfl⟩
   · simp [ho, hw]
   · simp [hw]
   · simp [hw]
-  · have := stepRun_frame c t s ‹_› ‹_›
-    simp only at this
+  · have := stepRun_frame_owner c t s ‹_› ‹_› ho
     simp [this, hw]
   · split
-    · simp [ho, hw]
+    · exact hop _ (ownerOp_dtorEnter c t s)
     · simp [hw]
-  · simp [ho, hw]
+  · exact hop _ (ownerOp_dtorEnter c t s)
+  · exact hop _ (ownerOp_dtorLoad t s)
   · simp [hw]
   · split <;> simp [hw]
   · split
@@ -751,11 +948,18 @@ theorem astep_obs (s : State) (h : Inv c s) (w : Nat) (o : Obs) (he : Ev.obs w o
       simp only at he
       split at he
       · exact he
-      · simp only [List.mem_append, List.mem_cons, List.not_mem_nil, or_false] at he
-        rcases he with (he | he) | he
-        · exact he
-        · split at he <;> simp at he
-        · cases he
+      · rcases finishRun_spec c t (runActs c t s acts).1 dt (runActs c t s acts).2.1 with ⟨_, h2, _⟩ | ⟨_, _, _, h2⟩
+        · rw [h2] at he
+          simp only [List.mem_append, List.mem_cons, List.not_mem_nil, or_false] at he
+          rcases he with (he | he) | he
+          · exact he
+          · split at he <;> simp at he
+          · cases he
+        · rw [h2] at he
+          simp only [List.mem_append] at he
+          rcases he with he | he
+          · exact he
+          · exact absurd he ((ownerOp_dtorLoad t _).no_obs w o)
     obtain ⟨ho, hc⟩ := runActs_obs c t acts s hok w o hin
     have hO := h.readyO hs t hw w
     rw [hpc] at hO
@@ -766,9 +970,10 @@ theorem astep_obs (s : State) (h : Inv c s) (w : Nat) (o : Obs) (he : Ev.obs w o
       · omega
     · split at hO <;> omega
   · split at he
-    · split at he <;> simp at he
+    · exact absurd he ((ownerOp_dtorEnter c t s).no_obs w o)
     · simp at he
-  · split at he <;> simp at he
+  · exact absurd he ((ownerOp_dtorEnter c t s).no_obs w o)
+  · exact absurd he ((ownerOp_dtorLoad t s).no_obs w o)
   · simp at he
   · split at he <;> simp at he
   · split at he
@@ -889,7 +1094,7 @@ end
 section
 variable (c : Cfg)
 
-theorem cls_cases (k : Kind) : k.cls = 0 ∨ k.cls = 1 ∨ k.cls = 2 := by cases k <;> simp [Kind.cls]
+theorem cls_cases (k : Kind) : k.cls = 0 ∨ k.cls = 1 ∨ k.cls = 2 ∨ k.cls = 3 := by cases k <;> simp [Kind.cls]
 
 theorem cntW_pos_iff (x : Nat) (acts : List Act) : 1 ≤ cntW x acts ↔ (Act.store x ∈ acts ∨ Act.wake x ∈ acts) := by
   induction acts with
@@ -920,28 +1125,22 @@ theorem not_stuck (s : State) (h : Inv c s) (r : Nat) (hr : r < c.n) (hk : (c.ki
     unfold enabled at h2
     split at h2 <;> simp_all [pcOK]
   have hrd : resolversDone c s = true := (resolversDone_iff c s).2 (fun i _ hi => hres i hi)
-  have hdt : ∀ i, (c.kind i).cls = 1 → s.pc i = Pc.done := by
+  -- hence no destructor agent is blocked either
+  have hdt : ∀ i, (c.kind i).cls ≠ 2 → s.pc i = Pc.done := by
     intro i hi
     have h1 := h.kindpc i
     have h2 := hstuck i
     unfold enabled at h2
-    split at h2 <;> simp_all [pcOK]
-  have hrdone : s.pc r = Pc.done := by
-    have := (resolving_iff _).1 hk
-    have h3 : (c.kind r).cls = 0 ∨ (c.kind r).cls = 1 := by
-      have := cls_cases (c.kind r); omega
-    rcases h3 with h3 | h3
-    · exact hres r h3
-    · exact hdt r h3
+    split at h2
+    · assumption
+    · rename_i hpc; rw [hpc] at h1; simp only [pcOK] at h1; exact absurd h1.1 hi
+    · rw [hrd] at h2; cases h2
+    · cases h2
+  have hrdone : s.pc r = Pc.done := hdt r ((resolving_iff _).1 hk)
   have ho := owner_false_of_done c s h r hr hk hrdone
   obtain ⟨_, w, hwin⟩ := h.own_f ho
   obtain ⟨hwn, hwk, hwpc⟩ := h.winpc w hwin
-  have hwdone : s.pc w = Pc.done := by
-    have h3 : (c.kind w).cls = 0 ∨ (c.kind w).cls = 1 := by
-      have := cls_cases (c.kind w); omega
-    rcases h3 with h3 | h3
-    · exact hres w h3
-    · exact hdt w h3
+  have hwdone : s.pc w = Pc.done := hdt w hwk
   have hs : s.slot = Slot.ready := by
     rcases slot_cases s with hs | ⟨l, hl⟩
     · exact hs
@@ -1006,11 +1205,16 @@ theorem astep_pc_other (s : State) (t' : Nat) (hne : t' ≠ t) : (astep c s t).1
   · rename_i dt acts _
     have := (runActs_frame c t acts s).2.2.2.1
     unfold stepRun; simp only
-    split <;> simp [hne, this]
+    split
+    · simp [hne, this]
+    · rcases finishRun_spec c t (runActs c t s acts).1 dt (runActs c t s acts).2.1 with ⟨h1, _, _⟩ | ⟨_, _, h1, _⟩
+      · rw [h1]; simp [hne, this]
+      · rw [h1, (ownerOp_dtorLoad t _).pc_other t' hne, this]
   · split
-    · split <;> simp [hne]
+    · exact (ownerOp_dtorEnter c t s).pc_other t' hne
     · simp [hne]
-  · split <;> simp [hne]
+  · exact (ownerOp_dtorEnter c t s).pc_other t' hne
+  · exact (ownerOp_dtorLoad t s).pc_other t' hne
   · simp [hne]
   · split <;> simp [hne]
   · split
@@ -1021,6 +1225,14 @@ theorem astep_pc_other (s : State) (t' : Nat) (hne : t' ≠ t) : (astep c s t).1
   · simp [hne]
   · unfold readStep; split <;> simp [hne]
   · unfold readStep2; simp [hne]
+
+theorem ownerOp_ret {s : State} {r : State × List Ev} (hr : OwnerOp s t r) (t' : Nat) (b : Bool) :
+    r.2.count (Ev.ret t' b) = 0 ∧ r.1.pc t ≠ Pc.done := by
+  refine ⟨List.count_eq_zero.2 (hr.no_ret t' b), ?_⟩
+  rcases hr.own with ⟨_, _, _, _, a | a⟩ | ⟨_, _, a⟩
+  · rw [a]; simp
+  · rw [a]; simp
+  · intro hd; rw [hd] at a; simp [isResolve] at a
 
 /-- return events of one step: exactly one `ret t b`, emitted by a resolver call in the step in which it finishes,
 with `b` = "this call is the winner" -/
@@ -1048,19 +1260,35 @@ theorem astep_ret (s : State) (h : Inv c s) (t' : Nat) (b : Bool) :
     unfold stepRun; simp only
     split
     · simp [List.count_eq_zero.2 hnr]
-    · cases dt
-      · simp only [Bool.false_eq_true, if_false] at hk
-        simp only [List.count_append, List.count_eq_zero.2 hnr, setPc_pc, upd_same, hk, hw, hpc,
-          Bool.false_eq_true, if_false]
-        rw [count_ret_cons_ret]
-        by_cases h1 : t' = t <;> by_cases h2 : b = true <;> simp [h1, h2]
-      · simp only [if_true] at hk
-        simp [List.count_append, List.count_eq_zero.2 hnr, hk]
+    · rcases finishRun_spec c t (runActs c t s acts).1 dt (runActs c t s acts).2.1 with ⟨h1, h2, h3⟩ | ⟨h0, h3, h1, h2⟩
+      · rw [h1, h2]
+        cases dt
+        · simp only [Bool.false_eq_true, if_false] at hk
+          have hk0 : (c.kind t).cls = 0 := by
+            rcases h3 with h3 | h3
+            · cases h3
+            · rcases hk with hk | hk
+              · exact hk
+              · exact absurd hk h3
+          simp only [List.count_append, List.count_eq_zero.2 hnr, setPc_pc, upd_same, hk0, hw, hpc,
+            Bool.false_eq_true, if_false]
+          rw [count_ret_cons_ret]
+          by_cases h1 : t' = t <;> by_cases h2 : b = true <;> simp [h1, h2]
+        · simp only [if_true] at hk
+          simp [List.count_append, List.count_eq_zero.2 hnr, hk]
+      · rw [h2, List.count_append, List.count_eq_zero.2 hnr, (ownerOp_ret t (ownerOp_dtorLoad t _) t' b).1]
+        simp [h3]
   · split
-    · split <;> simp
+    · have hO := ownerOp_ret t (ownerOp_dtorEnter c t s) t' b
+      rw [hO.1]; symm; apply if_neg; intro ⟨_, _, _, h4, _⟩; exact hO.2 h4
     · simp
-  · split <;> simp
-  · rename_i hpc; rw [hpc] at hk; simp only [pcOK] at hk; simp [hk]
+  · have hO := ownerOp_ret t (ownerOp_dtorEnter c t s) t' b
+    rw [hO.1]; symm; apply if_neg; intro ⟨_, _, _, h4, _⟩; exact hO.2 h4
+  · have hO := ownerOp_ret t (ownerOp_dtorLoad t s) t' b
+    rw [hO.1]; symm; apply if_neg; intro ⟨_, _, _, h4, _⟩; exact hO.2 h4
+  · rename_i hpc; rw [hpc] at hk; simp only [pcOK] at hk
+    have hk0 : (c.kind t).cls ≠ 0 := by omega
+    simp [hk0]
   · split <;> simp
   · split
     · simp
@@ -1081,6 +1309,13 @@ variable (c : Cfg) (t : Nat)
 theorem astep_winner_change (s : State) (h : Inv c s) :
     (astep c s t).1.winner = s.winner ∨
       (s.winner = none ∧ (astep c s t).1.winner = some t ∧ s.pc t ≠ Pc.done ∧ (astep c s t).1.pc t ≠ Pc.done) := by
+  have hop : ∀ r, OwnerOp s t r → s.pc t ≠ Pc.done →
+      r.1.winner = s.winner ∨ (s.winner = none ∧ r.1.winner = some t ∧ s.pc t ≠ Pc.done ∧ r.1.pc t ≠ Pc.done) := by
+    intro r hr hnd
+    rcases hr.own with ⟨_, _, a3, _⟩ | ⟨a1, a2, a3⟩
+    · exact Or.inl a3
+    · refine Or.inr ⟨(h.own_t a1).2, a2, hnd, ?_⟩
+      intro hd; rw [hd] at a3; simp [isResolve] at a3
   unfold astep
   split
   · exact Or.inl rfl
@@ -1090,19 +1325,17 @@ theorem astep_winner_change (s : State) (h : Inv c s) :
     · simp
   · simp
   · simp
-  · have := stepRun_frame c t s ‹_› ‹_›
-    simp only at this
-    simp [this]
+  · rename_i dt acts hpc
+    have ho := owner_of_active c s t h (Or.inr (by simp [hpc, isRun]))
+    exact Or.inl (stepRun_frame_owner c t s dt acts ho).2.2
   · rename_i hpc
     split
-    · split
-      · rename_i ho; simp [hpc, (h.own_t ho).2]
-      · simp
+    · exact hop _ (ownerOp_dtorEnter c t s) (by simp [hpc])
     · simp
   · rename_i hpc
-    split
-    · rename_i ho; simp [hpc, (h.own_t ho).2]
-    · simp
+    exact hop _ (ownerOp_dtorEnter c t s) (by simp [hpc])
+  · rename_i hpc
+    exact hop _ (ownerOp_dtorLoad t s) (by simp [hpc])
   · simp
   · split <;> simp
   · split
@@ -1236,6 +1469,15 @@ theorem runActs_obsCount (w : Nat) (acts : List Act) : ∀ s : State,
       · have : ¬ w = x := fun e => hx e.symm
         simp [hx, this]
 
+theorem ownerOp_obsCount {s : State} {r : State × List Ev} (hr : OwnerOp s t r) (w : Nat) :
+    r.2.countP (isObsOf w) = 0 := by
+  rw [List.countP_eq_zero]
+  intro e he
+  cases e <;> simp [isObsOf]
+  rename_i w' o
+  intro hw
+  exact absurd he (hr.no_obs w' o)
+
 /-- the ghost counter `observed w` counts exactly the `obs w _` events -/
 theorem astep_obsCount (s : State) (w : Nat) :
     (astep c s t).2.countP (isObsOf w) + s.observed w = (astep c s t).1.observed w := by
@@ -1250,11 +1492,19 @@ theorem astep_obsCount (s : State) (w : Nat) :
     unfold stepRun; simp only
     split
     · simpa using this
-    · cases dt <;> simpa [isObsOf] using this
+    · rcases finishRun_spec c t (runActs c t s acts).1 dt (runActs c t s acts).2.1 with ⟨h1, h2, _⟩ | ⟨_, _, h1, h2⟩
+      · rw [h1, h2]
+        cases dt <;> simpa [isObsOf] using this
+      · rw [h1, h2, (ownerOp_dtorLoad t _).observed, List.countP_append, ownerOp_obsCount t (ownerOp_dtorLoad t _) w]
+        simpa using this
   · split
-    · split <;> simp [isObsOf]
+    · have hO := ownerOp_dtorEnter c t s
+      rw [ownerOp_obsCount t hO w, hO.observed]; simp
     · simp [isObsOf]
-  · split <;> simp [isObsOf]
+  · have hO := ownerOp_dtorEnter c t s
+    rw [ownerOp_obsCount t hO w, hO.observed]; simp
+  · have hO := ownerOp_dtorLoad t s
+    rw [ownerOp_obsCount t hO w, hO.observed]; simp
   · simp [isObsOf]
   · split <;> simp [isObsOf]
   · split
